@@ -376,7 +376,7 @@ def gen_inclass(rng, knobs=None):
                 cid = "C%d_%d" % (idx, counters["ovr"])
                 counters["ovr"] += 1
                 # a type that observers / error handlers may rely on as infallible stays infallible in every scope
-                make_ctor(cid, t, names[:idx], ty["lc"], force_infallible=infallible[t], primary=False)
+                make_ctor(cid, t, names[:idx], ty["lc"], force_infallible=infallible[t] or rt_infallible.get(t, False), primary=False)
                 items.append(["ctor", cid])
         # types that only exist in this subtree: their only registration sits here, invisible to siblings and ancestors
         if depth > 0 and kn.p_scoped and rng.random() < 0.45:
@@ -512,7 +512,7 @@ def gen_inclass(rng, knobs=None):
                 continue
             cid = "C%d_s" % idx
             # (a type that observers / error handlers rely on stays infallible whichever registration wins)
-            make_ctor(cid, t, names[:idx], spec["types"][t]["lc"], force_infallible=infallible[t] or rng.random() < 0.4, primary=False)
+            make_ctor(cid, t, names[:idx], spec["types"][t]["lc"], force_infallible=infallible[t] or rt_infallible.get(t, False) or rng.random() < 0.4, primary=False)
             items.insert(rng.randint(0, len(items)), ["ctor", cid])
     for (target_items, ehid) in deferred_eh:
         target_items.insert(rng.randint(0, len(target_items)), ["eh", ehid])
@@ -1150,6 +1150,19 @@ def certificate(spec):
                             for (u, mo) in m.ctor_inputs(cid, t):
                                 if u.split("<")[0] in uses:
                                     uses[u.split("<")[0]].append(("%s@%s" % (cid, t), "ctor", mo))
+    # documented rule: an error observer may not need a fallible constructor, directly or transitively (a fallible singleton is
+    # fine: it cannot fail any more while a request is served). Checked in the observer's scope and in every scope below it.
+    for oid in spec["obs"]:
+        if oid not in m.reg:
+            continue
+        s0 = m.reg[oid][0]
+        for sc in m.bps:
+            if sc[:len(s0)] != s0:
+                continue
+            for (cid, _t) in m.closure(oid, scope=sc):
+                cc = spec["ctors"][cid]
+                if cc.get("fallible") and cc["lc"] != "singleton":
+                    problems.append("observer %s needs the fallible constructor %s" % (oid, cid))
     for t, ty in spec["types"].items():
         us = uses[t]
         modes = set(mo for (_, _, mo) in us)
